@@ -78,8 +78,27 @@ func genExplore(rnd *rand.Rand, mode string) exploreCfg {
 		return c
 	}
 	if mode == "c17" {
+		// writers whose chunks overlap: a batch may start with the last one or two headers of the run below it (what is
+		// stored in the end is what a sequential execution of the same appends stores, whoever comes first)
+		// (not together with the deleter: re-appending a pruned header legitimately moves the tail back down)
+		withDeleter := rnd.Intn(2) == 0
+		if !withDeleter && rnd.Intn(3) > 0 {
+			all := map[int]bool{1: true}
+			for _, r := range c.script {
+				for _, h := range r {
+					all[h] = true
+				}
+			}
+			for i, r := range c.script {
+				k := rnd.Intn(3)
+				for ; k > 0 && r[0] > 2 && all[r[0]-1]; k-- {
+					r = append([]int{r[0] - 1}, r...)
+				}
+				c.script[i] = r
+			}
+		}
 		c.syncs = rnd.Intn(2)
-		if rnd.Intn(2) == 0 {
+		if withDeleter {
 			c.delTo = 2 + rnd.Intn(2)
 		}
 		// readers of low heights: they return at once, but they read through the caches while the deleter works
@@ -613,6 +632,11 @@ func exploreOnce(t *testing.T, id int, rnd *rand.Rand, mode string) (rec0 Record
 			mu.Unlock()
 			if tl, _ := st.Tail(x); tl != nil {
 				rec0.FinalTail = int(tl.Height())
+			}
+			// everything has been appended and synced: Head is the top of the run of appended heights that starts at 1
+			rec0.HeadWant = 1
+			for appended[rec0.HeadWant+1] {
+				rec0.HeadWant++
 			}
 			rec0.Missing = []int{}
 			for h := rec0.FinalTail; h >= 1 && h <= rec0.Head; h++ {
